@@ -318,10 +318,13 @@ def apply_mutator(ctx, a):
         if ctx.cm is not None:
             ctx.cm = ctx.cm + np.array(a[1])
     elif op == "rezero":
-        lo = np.array(m.vertices).min(axis=0) if len(m.vertices) else np.zeros(3)
+        # the override moves by the translation that was actually applied (the bounds of the
+        # referenced vertices decide it, not the minimum over all vertices)
+        v0 = np.array(m.vertices[0]) if len(m.vertices) else np.zeros(3)
         m.rezero()
-        if ctx.cm is not None:
-            ctx.cm = ctx.cm - lo
+        v1 = np.array(m.vertices[0]) if len(m.vertices) else np.zeros(3)
+        if ctx.cm is not None and np.isfinite(v1 - v0).all():
+            ctx.cm = ctx.cm + (v1 - v0)
     elif op == "invert":
         m.invert()
     elif op == "update_faces":
